@@ -33,10 +33,13 @@ type Cfg struct {
 	RejKind  string // plain | custom | nostatus
 	RBuf     int
 	WBuf     int
+	// Bare: no On* callback is installed at all (with Reject == "", the zero-copy upgrader normally gets accepting
+	// ones): together with ProtoSel/ExtSel "nil" this is the plain ws.Upgrader{} / ws.Upgrade configuration
+	Bare bool
 }
 
 func (c Cfg) String() string {
-	return fmt.Sprintf("proto=%s ext=%s hdr=%s reject=%s/%s rbuf=%d wbuf=%d", c.ProtoSel, c.ExtSel, c.Header, c.Reject, c.RejKind, c.RBuf, c.WBuf)
+	return fmt.Sprintf("proto=%s ext=%s hdr=%s reject=%s/%s rbuf=%d wbuf=%d bare=%v", c.ProtoSel, c.ExtSel, c.Header, c.Reject, c.RejKind, c.RBuf, c.WBuf, c.Bare)
 }
 
 var (
@@ -200,6 +203,9 @@ func runUpgrader(cfg Cfg, req *gen.Req, plan xport.Plan) outcome {
 	case "OnBeforeUpgrade":
 		u.OnBeforeUpgrade = func() (ws.HandshakeHeader, error) { return nil, rejErr }
 	default:
+		if cfg.Bare {
+			break
+		}
 		u.OnRequest = func([]byte) error { return nil }
 		u.OnHost = func([]byte) error { return nil }
 		u.OnHeader = func(k, v []byte) error { out.hdrCalls++; return nil }
@@ -530,7 +536,7 @@ func decide(c *mon.C, upgrader string, cfg Cfg, req *gen.Req, protoHdrs, extHdrs
 			c.Fail(sigp+"/success-extra-header", "the caller's extra header is missing from the 101 response", det())
 			return false
 		}
-		if upgrader == "Upgrader" && cfg.Reject == "" && ri.header.Get("X-Before") != "upgrade" {
+		if upgrader == "Upgrader" && cfg.Reject == "" && !cfg.Bare && ri.header.Get("X-Before") != "upgrade" {
 			c.Fail(sigp+"/success-before-header", "the header returned by OnBeforeUpgrade is missing from the 101 response", det())
 			return false
 		}
@@ -619,6 +625,9 @@ var bufSizes = []int{0, 16, 17, 64, 256, 4096}
 
 func randCfg(c *mon.C, simple bool) Cfg {
 	cfg := Cfg{ProtoSel: "nil", ExtSel: "nil", Header: "nil", RejKind: "plain"}
+	if simple {
+		cfg.Bare = c.Rng.Intn(2) == 0
+	}
 	if !simple {
 		cfg.ProtoSel = protoSels[c.Rng.Intn(len(protoSels))]
 		cfg.ExtSel = extSels[c.Rng.Intn(len(extSels))]
